@@ -517,7 +517,40 @@ async def x_restart(loop):
     return []
 
 
-EXTRAS = {"C03": [x_two_servers, x_table_changed], "C02": [x_base_changed], "C10": [x_second_manager], "C05": [x_overlapping_sessions], "C18": [x_restart], "C12": [x_restart]}
+async def x_huge_offsets(loop):
+    """restart offsets no backend can seek to (2**63, thirty digits): the seek fails, the transfer is answered 451 - not
+    226 - and the session goes on"""
+    bad = []
+    for backend in ("memory", "pathio"):
+        wd = W.World(loop, [W.UserSpec("bob", None)], backend=backend)
+        await wd.start()
+        try:
+            wd.set_tree(TREE[:6])
+            c = await wd.raw_client()
+            await _line(wd, c, "USER bob")
+            for off in (2**63, 10**29, 2**64):
+                for verb, payload in (("RETR f.txt", b""), ("STOR f.txt", b"zz"), ("APPE f.txt", b"zz")):
+                    await _line(wd, c, "EPSV")
+                    await W.data_connect(wd, c)
+                    a = await _line(wd, c, "REST %d" % off)
+                    codes, _, out, _ = await W.run_line(wd, c, verb.encode(), payload)
+                    pwd = await _line(wd, c, "PWD")
+                    size = len(dict(entries_of(wd.tree())).get(("f.txt",), b""))
+                    if a == [350] and (226 in codes and (verb.startswith("RETR") or size < off)) or pwd != [257]:
+                        bad.append("%s backend: REST %d (answered %r) then %s -> %r with %d bytes sent, the file has %d bytes now; PWD -> %r (an offset the backend cannot seek to: want 451, the session going on)" % (
+                            backend, off, a, verb, codes, len(out), size, pwd))
+                    if c.eof:
+                        c = await wd.raw_client()
+                        await _line(wd, c, "USER bob")
+        finally:
+            try:
+                await wd.stop()
+            except Exception:
+                wd.finish()
+    return bad
+
+
+EXTRAS = {"C13": [x_huge_offsets], "C03": [x_two_servers, x_table_changed], "C02": [x_base_changed], "C10": [x_second_manager], "C05": [x_overlapping_sessions], "C18": [x_restart], "C12": [x_restart]}
 
 
 def _extra_job(fn):
